@@ -689,6 +689,62 @@ fn deformation_grid_lists(rep: &Report) {
     }
 }
 
+/// Gravsoft grids in projected coordinates (any boundary beyond +-720 means "not degrees"): geometry and node
+/// values are used exactly as written — also when ONE of the boundaries happens to lie within +-720
+/// (a grid starting at northing 0, at easting 0, or straddling an axis)
+pub fn projected_grids(rep: &Report) {
+    let geometries = [
+        ("starting at northing 0", GeoDeg { lat_s: 0., lat_n: 4000., lon_w: 500000., lon_e: 503000., dlat: 1000., dlon: 1000. }),
+        ("starting at easting 0", GeoDeg { lat_s: 6100000., lat_n: 6104000., lon_w: 0., lon_e: 3000., dlat: 1000., dlon: 1000. }),
+        ("straddling the equator", GeoDeg { lat_s: -2000., lat_n: 2000., lon_w: 499000., lon_e: 502000., dlat: 1000., dlon: 500. }),
+        ("ordinary", GeoDeg { lat_s: 6100000., lat_n: 6103000., lon_w: 500000., lon_e: 504000., dlat: 500., dlon: 1000. }),
+    ];
+    for (label, g) in &geometries {
+        for bands in 1..=3usize {
+            let fv = move |r: usize, c: usize, b: usize| node_value(77 + bands as u32, r, c, b);
+            let text = gravsoft_text(g, bands, &fv, TextLayout::RowPerLine);
+            rep.eval(1);
+            let grid = match catch(|| BaseGrid::gravsoft(text.as_bytes())) {
+                Ok(Ok(gr)) => gr,
+                other => {
+                    rep.violation("well-formed projected Gravsoft grid is rejected or panics", json!({"geometry": label, "bands": bands, "result": format!("{other:?}").chars().take(200).collect::<String>()}));
+                    continue;
+                }
+            };
+            let (rows, cols) = (g.rows(), g.cols());
+            let mut values = Vec::new();
+            for r in 0..rows {
+                for c in 0..cols {
+                    for b in 0..bands {
+                        values.push(fv(r, c, b) as f32);
+                    }
+                }
+            }
+            let reference = RefGrid { lat_n: g.lat_n, lat_s: g.lat_s, lon_w: g.lon_w, lon_e: g.lon_e, dlat: g.dlat, dlon: g.dlon, rows, cols, bands, values };
+            'q: for r2 in 0..(2 * rows - 1) {
+                for c2 in 0..(2 * cols - 1) {
+                    // nodes and cell centres / edge mid points
+                    let (n, e) = (g.lat_n - 0.5 * r2 as f64 * g.dlat, g.lon_w + 0.5 * c2 as f64 * g.dlon);
+                    rep.eval(1);
+                    let got = catch(|| grid.at(&Coor4D([e, n, 0., 0.]), 0.0));
+                    let want = reference.at(e, n);
+                    let ok = match &got {
+                        Ok(Some(v)) => (0..bands).all(|b| rel_close(v[b], want[b], 1e-3)),
+                        _ => false,
+                    };
+                    if !ok {
+                        rep.violation(
+                            &format!("projected Gravsoft grid: geometry or node values are not those written / {label}"),
+                            json!({"geometry": format!("{g:?}"), "bands": bands, "easting": e, "northing": n, "observed": format!("{got:?}"), "expected": want}),
+                        );
+                        break 'q;
+                    }
+                }
+            }
+        }
+    }
+}
+
 pub fn run(tier: Tier) -> Report {
     let rep = Report::new("C08", tier, "exploration");
     rep.rule("30 grid geometries x 1..3 bands x 5 text layouts: every cell x 25 in-cell positions + 1e-9 deg either side of inner cell edges + margin (0.25, 0.49 cells) and outside \
@@ -697,6 +753,10 @@ pub fn run(tier: Tier) -> Report {
     rep.assume("reference = harness bilinear interpolation on node values rounded exactly as the documented unit conversion prescribes (f32); tolerance 1e-12 relative to the largest node value");
     let outcomes = Mutex::new(HashSet::new());
     base_grid_checks(&rep, &outcomes);
+    match catch(|| projected_grids(&rep)) {
+        Ok(()) => {}
+        Err(p) => rep.violation(&format!("panic reading a projected grid: {}", panic_class(&p)), json!({"panic": p})),
+    }
     grid_lists(&rep);
     match catch(|| deformation_grid_lists(&rep)) {
         Ok(()) => {}
